@@ -2,6 +2,7 @@ import Dbg.Spec.C03
 import Dbg.Lemmas.GraphProofs
 import Dbg.Lemmas.GraphSym
 import Dbg.Lemmas.GInvCompress
+import Dbg.Lemmas.EdgeComplete
 /-! # C03 — Extensions and edges denote exactly the real adjacencies, symmetrically
 
 Proved so far, for every graph of the model (any nodes, any K): a link returned by `find_link` points to a node whose
@@ -112,5 +113,140 @@ theorem C03_edges_symmetric_from_reads (K : Nat) (hK : 4 ≤ K) (reads : List (S
     ReachesBack (⟨K, out.map (·.1), st⟩ : G Filter.Payload) u d v s := by
   obtain ⟨wf, hes2⟩ := Filter.pipeline_table_ok2 K (by omega) reads hb sm st T hp
   exact edges_symmetric _ (Compress.compress_ginv reduce wf hes2 hj out ho) u d es he v s f hm
+
+/-- **C03 (edges = recorded extensions towards present k-mers).** In the graph `compress_kmers` builds from any
+    well-formed table that is reciprocal towards present neighbours: an extension recorded on a node side resolves through
+    `find_link` — is reported as an edge — **iff** the canonical form of the k-mer it leads to is a key of the table.
+    (`⇐` is the completeness of `find_link`, which inspects node ends only: the target k-mer of an extension recorded at a
+    node end is itself at a node end, on the facing side — `Compress.ext_target_port`.) -/
+theorem C03_edges_complete {T : Compress.Table D} {K : Nat} {st : Bool} {join : D → D → Bool} (reduce : D → D → D)
+    (wf : Compress.WF T K st) (hes2 : Filter.ExtSym2 T st) (hj : ∀ a b, join a b = join b a)
+    (out : List (Node D × List Nat)) (ho : Compress.compressKmersC T st join reduce = some out)
+    (X : Node D × List Nat) (hX : X ∈ out) (s : Dir) (β : Base) (hβ : Filter.has X.1.exts s β) :
+    (findLink (⟨K, out.map (·.1), st⟩ : G D) (extend (termKmer K X.1.seq s) β s) s).isSome ↔
+      (Compress.canonSt st (extend (termKmer K X.1.seq s) β s)).1 ∈ T.map (·.key) :=
+  Compress.edge_iff_target_present reduce wf hes2 hj out ho X hX s β hβ
+
+theorem occ_rc (K : Nat) (reads : List (Seq × Exts × Nat)) (u : Seq) (d : Dir) (b : Base)
+    (h : Filter.Occ K reads false u d.flip (Compress.comp b)) : Filter.Occ K reads false (rc u) d b := by
+  obtain ⟨r, hr, i, hi, hc⟩ := h
+  refine ⟨r, hr, i, hi, ?_⟩
+  rcases hc with ⟨h1, h2⟩ | ⟨_, h1, h2⟩
+  · right
+    exact ⟨rfl, by rw [h1], h2⟩
+  · left
+    rw [Dir.flip_flip, Compress.comp_comp] at h2
+    exact ⟨by rw [h1, Compress.rc_rc], h2⟩
+
+/-- **C03 (from reads: no dangling extension, every extension an observed adjacency).** In the graph built by
+    filter → prune → compress from any read set (empty boundary extensions, K ≥ 4, both summarizers, stranded or not, any
+    hash order), every extension recorded on a node side (i) resolves through `find_link` to a node, and (ii) is a
+    (K+1)-mer of the input: the node's terminal k-mer occurs in a read (as spelled or, unstranded, reverse-complemented)
+    with that base next to it on that side. -/
+theorem C03_exts_resolve_from_reads (K : Nat) (hK : 4 ≤ K) (reads : List (Seq × Exts × Nat)) (hb : Filter.NoBoundary reads)
+    (sm : Filter.Summarizer) (st : Bool) (join : Filter.Payload → Filter.Payload → Bool) (hj : ∀ a b, join a b = join b a)
+    (reduce : Filter.Payload → Filter.Payload → Filter.Payload) (T : List (Compress.Entry Filter.Payload))
+    (hp : T.Perm (Filter.removeCensoredExts st (Filter.refTable K reads sm st)))
+    (out : List (Node Filter.Payload × List Nat)) (ho : Compress.compressKmersC T st join reduce = some out)
+    (X : Node Filter.Payload × List Nat) (hX : X ∈ out) (s : Dir) (β : Base) (hβ : Filter.has X.1.exts s β) :
+    (findLink (⟨K, out.map (·.1), st⟩ : G Filter.Payload) (extend (termKmer K X.1.seq s) β s) s).isSome ∧
+      Filter.Occ K reads st (termKmer K X.1.seq s) s β := by
+  obtain ⟨wf, hes2⟩ := Filter.pipeline_table_ok2 K (by omega) reads hb sm st T hp
+  obtain ⟨p, ex, np⟩ := Compress.node_port_exists reduce wf hes2.toExtSym hj out ho X hX s
+  have hbx := (np.exts β).mp hβ
+  obtain ⟨_, hcan⟩ := Compress.node_target X.1 s p ex np β
+  -- the entry in the pruned reference table
+  have hexT : ex ∈ T := List.mem_of_getElem? np.ent
+  have hexR : ex ∈ Filter.removeCensoredExts st (Filter.refTable K reads sm st) := hp.mem_iff.mp hexT
+  obtain ⟨x', hx'⟩ := Filter.mem_getElem? _ _ hexR
+  obtain ⟨e0, h0, hk, _, _, hx⟩ := (Filter.removeCensored_exact st (Filter.refTable K reads sm st)).2 x' ex hx'
+  obtain ⟨h1, h2⟩ := (hx p.2 (if p.2 = s then β else Compress.comp β)).mp hbx
+  constructor
+  · rw [C03_edges_complete reduce wf hes2 hj out ho X hX s β hβ, hcan, ← Filter.extTarget_eq, hk]
+    have hkeys : ((Filter.removeCensoredExts st (Filter.refTable K reads sm st)).map (·.key)) = (Filter.refTable K reads sm st).map (·.key) := by
+      simp [Filter.removeCensoredExts, List.map_map, Function.comp_def]
+    exact (hp.map (·.key)).mem_iff.mpr (by rw [hkeys]; exact h2)
+  · have hocc := Filter.table_occ K (by omega) reads hb sm st e0 (List.mem_of_getElem? h0) p.2 _ h1
+    rw [np.term, hk]
+    by_cases h : p.2 = s
+    · simp only [h, if_true] at hocc ⊢
+      exact hocc
+    · have hst' : st = false := by
+        cases st with
+        | false => rfl
+        | true => exact absurd (np.strand rfl) h
+      subst hst'
+      have hs : p.2 = s.flip := by
+        cases hh : p.2 <;> cases hs : s <;> simp_all [Dir.flip]
+      simp only [h, if_false] at hocc ⊢
+      rw [hs] at hocc
+      exact occ_rc K reads e0.key s β hocc
+
+theorem isPal_false_of_ne (x : Seq) (h : rc x ≠ x) : Compress.isPalindrome x = false := by
+  unfold Compress.isPalindrome
+  cases hh : (x == rc x) with
+  | false => simp
+  | true => exact absurd (by simpa using hh : x = rc x).symm h
+
+/-- **C03 (from reads: every observed adjacency between retained k-mers is recorded).** Conversely, in the same graph: if
+    the terminal k-mer on side `s` of a node occurs in a read with base `β` next to it on that side, the k-mer this leads
+    to was retained, and the terminal k-mer is not its own reverse complement (unstranded; the two sides of a palindromic
+    single-k-mer node count as one and are excluded here), then the node records `β` on side `s` — and, by
+    `C03_exts_resolve_from_reads`, reports the edge. -/
+theorem C03_observed_adjacency_recorded (K : Nat) (hK : 4 ≤ K) (reads : List (Seq × Exts × Nat)) (hb : Filter.NoBoundary reads)
+    (sm : Filter.Summarizer) (st : Bool) (join : Filter.Payload → Filter.Payload → Bool) (hj : ∀ a b, join a b = join b a)
+    (reduce : Filter.Payload → Filter.Payload → Filter.Payload) (T : List (Compress.Entry Filter.Payload))
+    (hp : T.Perm (Filter.removeCensoredExts st (Filter.refTable K reads sm st)))
+    (out : List (Node Filter.Payload × List Nat)) (ho : Compress.compressKmersC T st join reduce = some out)
+    (X : Node Filter.Payload × List Nat) (hX : X ∈ out) (s : Dir) (β : Base)
+    (hocc : Filter.Occ K reads st (termKmer K X.1.seq s) s β)
+    (htgt : (Compress.canonSt st (extend (termKmer K X.1.seq s) β s)).1 ∈ (Filter.refTable K reads sm st).map (·.key))
+    (hnp : st = true ∨ rc (termKmer K X.1.seq s) ≠ termKmer K X.1.seq s) :
+    Filter.has X.1.exts s β := by
+  obtain ⟨wf, hes2⟩ := Filter.pipeline_table_ok2 K (by omega) reads hb sm st T hp
+  obtain ⟨p, ex, np⟩ := Compress.node_port_exists reduce wf hes2.toExtSym hj out ho X hX s
+  obtain ⟨_, hcan⟩ := Compress.node_target X.1 s p ex np β
+  rw [np.exts β]
+  have hexT : ex ∈ T := List.mem_of_getElem? np.ent
+  have hexR : ex ∈ Filter.removeCensoredExts st (Filter.refTable K reads sm st) := hp.mem_iff.mp hexT
+  obtain ⟨x', hx'⟩ := Filter.mem_getElem? _ _ hexR
+  obtain ⟨e0, h0, hk, _, _, hx⟩ := (Filter.removeCensored_exact st (Filter.refTable K reads sm st)).2 x' ex hx'
+  rw [hx]
+  have hcanon : st = false → ¬ (rc ex.key < ex.key) := fun h => wf.canon h p.1 ex np.ent
+  refine ⟨?_, by rw [← hk, Filter.extTarget_eq, ← hcan]; exact htgt⟩
+  have he0 : e0 ∈ Filter.refTable K reads sm st := List.mem_of_getElem? h0
+  by_cases h : p.2 = s
+  · -- the k-mer lies in the node as spelled
+    have hterm : termKmer K X.1.seq s = ex.key := by rw [np.term, if_pos h]
+    rw [hterm] at hocc hnp
+    have hpal : (!st && Compress.isPalindrome ex.key) = false := by
+      rcases hnp with h1 | h1
+      · rw [h1]; rfl
+      · rw [isPal_false_of_ne _ h1]; simp
+    have hc := Compress.canonSt_self hcanon hpal
+    rw [hk] at hc hpal
+    have := Filter.occ_table K (by omega) reads hb sm st e0.key s β (by rw [← hk]; exact hocc) e0 he0 false hc hpal
+    simpa [h, Compress.condFlip] using this
+  · have hst' : st = false := by
+      cases st with
+      | false => rfl
+      | true => exact absurd (np.strand rfl) h
+    subst hst'
+    have hs : p.2 = s.flip := by
+      cases hh : p.2 <;> cases hs : s <;> simp_all [Dir.flip]
+    have hterm : termKmer K X.1.seq s = rc ex.key := by rw [np.term, if_neg h]
+    rw [hterm] at hocc hnp
+    have hne : rc ex.key ≠ ex.key := by
+      rcases hnp with h1 | h1
+      · cases h1
+      · intro e; apply h1; rw [Compress.rc_rc, e]
+    have hpal := isPal_false_of_ne _ hne
+    have hc : Compress.canonSt false (rc ex.key) = (ex.key, true) := by
+      simp only [Compress.canonSt, Bool.false_eq_true, if_false]
+      exact Compress.canonSt_rc (hcanon rfl) hpal
+    rw [hk] at hc hpal
+    have := Filter.occ_table K (by omega) reads hb sm false (rc e0.key) s β (by rw [← hk]; exact hocc) e0 he0 true hc (by simp [hpal])
+    have hne' : ¬ (s.flip = s) := by cases s <;> simp [Dir.flip]
+    simpa [hs, hne', Compress.condFlip] using this
 
 end Graph
